@@ -131,20 +131,21 @@ func ToExpr(args []interface{}, types []reflect.Type, isVariadic bool) ([]Expr, 
 			typ = types[i]
 		} else {
 			typ = types[len(types)-1]
+			// 兼容可变参数: 只有可变参数位置才使用元素类型
+			if isVariadic {
+				typ = typ.Elem()
+			}
 		}
 
 		if expr, ok := a.(Expr); ok {
 			expressions[i] = expr
 		} else {
-			// 兼容可变参数
-			if isVariadic {
-				typ = typ.Elem()
-			}
 			// 默认使用 equals 表达式
 			expressions[i] = Equals(a)
 		}
 
-		if err := expressions[i].Resolve([]reflect.Type{typ}, isVariadic); err != nil {
+		// 每个表达式只对应一个(已展开的)参数
+		if err := expressions[i].Resolve([]reflect.Type{typ}, false); err != nil {
 			return nil, err
 		}
 	}
